@@ -322,6 +322,19 @@ func (s *Server) readMessage() (json.RawMessage, error) {
 
 // handleMessage processes a single message
 func (s *Server) handleMessage(msg json.RawMessage) {
+	// A panic while handling one message must not take the whole server down:
+	// log it, and if a request was still owed its response, answer it with an
+	// internal error so the client is not left waiting.
+	var pendingID interface{}
+	defer func() {
+		if r := recover(); r != nil {
+			s.logger.Printf("panic while handling message: %v", r)
+			if pendingID != nil {
+				s.sendError(pendingID, InternalError, "internal error")
+			}
+		}
+	}()
+
 	// Enforce rate limiting
 	if !s.checkRateLimit() {
 		// For requests with IDs, send rate limit error response
@@ -361,7 +374,9 @@ func (s *Server) handleMessage(msg json.RawMessage) {
 	// Handle the request
 	if req.ID != nil {
 		// It's a request expecting a response
+		pendingID = req.ID
 		result, err := s.handler.HandleRequest(req.Method, req.Params)
+		pendingID = nil
 		if err != nil {
 			s.sendError(req.ID, InternalError, err.Error())
 		} else {
